@@ -1717,3 +1717,136 @@ func c02r15(rc *core.RC) {
 		rc.Unknown("decoder.compileMapKey/string-kind-branch", fd.Pos(), "no branch for reflect.String that returns a decoder found")
 	}
 }
+
+// ---- C02.R16 the bit a field gets in the key bitmaps follows the order of the texts the bitmaps are filled with ----
+
+// The bitmap key decoders take, among the fields whose bits are left, the one on the lowest bit, and give up when the
+// key that was read is shorter than that field's name. A name that is the beginning of another name therefore needs
+// the lower bit: the bit positions have to follow the byte order of exactly the texts whose bytes index the bitmap
+// rows (the lower-cased names). Sorted by another text (the names as declared: "ID2" sorts in front of "Id"), the
+// longer name gets the lower bit and the shorter field is never found. Obligation, for every loop of tryOptimize
+// that fills a bitmap (`bitmap[j][c] |= 1 << i` with i the index of a range over S): c is the byte j of the range
+// value itself, not of something looked up for it, and S is put in order by sort.Strings(S) in front of the loop; or
+// S is ordered by sort.Slice with a comparison of the same expression that indexes the bitmap.
+func c02r16(rc *core.RC) {
+	p := rc.P
+	fd := p.Func("decoder", "structDecoder.tryOptimize")
+	if fd == nil || fd.Body == nil {
+		rc.Unknown("decoder.(*structDecoder).tryOptimize/bit-order", token.NoPos, "tryOptimize not found")
+		return
+	}
+	rc.Touch(p.FuncName(fd))
+	info := p.Info(fd)
+	// how S was sorted
+	type sorted struct {
+		byStrings bool
+		lessText  string // for sort.Slice: the compared expression with the element written as $
+	}
+	sorts := map[types.Object]sorted{}
+	ast.Inspect(fd.Body, func(m ast.Node) bool {
+		call, ok := m.(*ast.CallExpr)
+		if !ok || len(call.Args) == 0 {
+			return true
+		}
+		obj := core.ObjOf(info, call.Args[0])
+		if obj == nil {
+			return true
+		}
+		switch core.CalleeName(info, call) {
+		case "sort.Strings":
+			sorts[obj] = sorted{byStrings: true}
+		case "sort.Slice", "sort.SliceStable":
+			if len(call.Args) == 2 {
+				if fl, isLit := core.Unparen(call.Args[1]).(*ast.FuncLit); isLit && len(fl.Body.List) == 1 {
+					if r, isRet := fl.Body.List[0].(*ast.ReturnStmt); isRet && len(r.Results) == 1 {
+						if be, isB := core.Unparen(r.Results[0]).(*ast.BinaryExpr); isB && be.Op == token.LSS {
+							txt := types.ExprString(be.X)
+							// S[i] -> $
+							if len(fl.Type.Params.List) > 0 && len(fl.Type.Params.List[0].Names) > 0 {
+								txt = strings.ReplaceAll(txt, obj.Name()+"["+fl.Type.Params.List[0].Names[0].Name+"]", "$")
+							}
+							sorts[obj] = sorted{lessText: txt}
+						}
+					}
+				}
+			}
+		}
+		return true
+	})
+	n := 0
+	ast.Inspect(fd.Body, func(m ast.Node) bool {
+		rs, ok := m.(*ast.RangeStmt)
+		if !ok || rs.Key == nil || rs.Value == nil {
+			return true
+		}
+		coll := core.ObjOf(info, rs.X)
+		idx, val := core.ObjOf(info, rs.Key), core.ObjOf(info, rs.Value)
+		if coll == nil || idx == nil || val == nil {
+			return true
+		}
+		// bitmap[j][c] |= 1 << uint(i)
+		var store *ast.AssignStmt
+		ast.Inspect(rs.Body, func(q ast.Node) bool {
+			as, isAs := q.(*ast.AssignStmt)
+			if !isAs || as.Tok != token.OR_ASSIGN || len(as.Lhs) != 1 {
+				return true
+			}
+			usesIdx := false
+			ast.Inspect(as.Rhs[0], func(z ast.Node) bool {
+				if id, isID := z.(*ast.Ident); isID && info.Uses[id] == idx {
+					usesIdx = true
+				}
+				return true
+			})
+			if usesIdx {
+				store = as
+			}
+			return true
+		})
+		if store == nil {
+			return true
+		}
+		n++
+		key := fmt.Sprintf("decoder.(*structDecoder).tryOptimize/bitmap-fill#%d bit-order-is-the-order-of-the-bitmap-texts", n)
+		ix, isIx := core.Unparen(store.Lhs[0]).(*ast.IndexExpr)
+		if !isIx {
+			rc.Unknown(key, store.Pos(), "the bitmap store %s was not recognised", core.Src(p.Fset, store.Lhs[0]))
+			return true
+		}
+		col := core.Unparen(ix.Index)
+		if id, isID := col.(*ast.Ident); isID {
+			if def := singleDef(info, rs.Body, info.Uses[id]); def != nil {
+				col = core.Unparen(def)
+			}
+		}
+		// the text whose byte j indexes the row: X in X[j], with the element written as $
+		bitmapText := ""
+		if cix, isC := col.(*ast.IndexExpr); isC {
+			bitmapText = strings.ReplaceAll(types.ExprString(cix.X), val.Name(), "$")
+			if _, nested := core.Unparen(cix.Index).(*ast.IndexExpr); nested {
+				// table[ X[j] ]: the byte is looked up for another one
+				inner := core.Unparen(cix.Index).(*ast.IndexExpr)
+				bitmapText = types.ExprString(cix.X) + "[" + strings.ReplaceAll(types.ExprString(inner.X), val.Name(), "$") + "[j]]"
+			}
+		}
+		so, has := sorts[coll]
+		switch {
+		case !has:
+			rc.Bad(key, rs.Pos(), "the fields get their bits in the order of %s, which is not sorted in tryOptimize: a name that is the beginning of another name has to get the lower bit", types.ExprString(rs.X))
+		case so.byStrings && bitmapText == "$":
+			rc.OK(key, rs.Pos(), "the bits follow sort.Strings of the texts whose bytes index the bitmap")
+		case !so.byStrings && so.lessText != "" && so.lessText == bitmapText:
+			rc.OK(key, rs.Pos(), "the bits follow the order of %s, the text whose bytes index the bitmap", bitmapText)
+		default:
+			order := "sort.Strings of the elements"
+			if !so.byStrings {
+				order = "the order of " + so.lessText
+			}
+			rc.Bad(key, rs.Pos(), "the bits follow %s, the rows of the bitmap are indexed by the bytes of %s: with names that differ in case (\"Id\", \"ID2\") the longer name gets the lower bit, the key decoders give up on it for the shorter key, and the field \"Id\" is never found", order, bitmapText)
+		}
+		return true
+	})
+	if n < 2 {
+		rc.Unknown("decoder.(*structDecoder).tryOptimize/bit-order", fd.Pos(), "found %d loops that fill a key bitmap, fewer than the 2 confirmed by hand", n)
+	}
+}
